@@ -11,7 +11,8 @@ from vlib import common as C
 ID = 'C10'
 READY = True
 LEVEL_TEXT = ('Partial. Proved (Coq/Coquelicot/Interval) about what optimism adds to JAX: the custom_root tangent solve y/g(1) inverts every '
-              'non-degenerate linear map and with the scalar implicit-function theorem gives the derivative of the root; the '
+              'non-degenerate linear map and with the scalar implicit-function theorem gives the derivative of the root -- with no interiority '
+              'hypothesis: also for a root on an end of the bracket (perfect plasticity) it is -b/a, non-zero, and equal to the derivative of the end point; the '
               'total-derivative / envelope theorem (stress = partial derivative at fixed internal variable when the internal variable is stationary '
               'or frozen, i.e. on either side of the yield switch); the safe_sqrt JVP rule (v*0.5/sqrt x = v*sqrt\'(x) for x>0, 0 for x<=0) on the '
               'regenerated kernel; the sqrt/exp/log/pow relative-difference kernels equal the divided differences (f l1 - f l2)/(l1 - l2); the '
@@ -22,8 +23,8 @@ LEVEL_TEXT = ('Partial. Proved (Coq/Coquelicot/Interval) about what optimism add
               'and jax.jvp(jax.grad) of the energy density versus 6th-order central differences of the same energy.')
 TECHNIQUE = 'Coq proof (Reals + Coquelicot + Interval) over regenerated kernels and hand models; binary64 correspondence; AD-vs-finite-difference comparison of every material model'
 GEN = ['Math', 'TensorMathFun', 'TensorMathAD']
-TARGETS = ['model/M_C10.vo', 'proofs/L_C10.vo', 'proofs/L_C10_DK.vo']
-COQ_FILES = ['base/Num.v', 'model/M_C10.v', 'proofs/L_C10.v', 'proofs/L_C10_DK.v', 'props/P_C10.v']
+TARGETS = ['model/M_C10.vo', 'proofs/L_C10.vo', 'proofs/L_C10_DK.vo', 'proofs/L_C10_End.vo', 'proofs/L_C10_DKV.vo']
+COQ_FILES = ['base/Num.v', 'model/M_C10.v', 'proofs/L_C10.v', 'proofs/L_C10_DK.v', 'proofs/L_C10_End.v', 'proofs/L_C10_DKV.v', 'props/P_C10.v']
 TRUSTED = ['Coq 8.16.1 kernel + vm_compute (no native_compute)',
            'tools/vlib/py2coq.py translator (expm1(x) -> exp x - 1, log1p(x) -> ln(1 + x): exact over R, less accurate in binary64 near 0)',
            'hand models of _log_relative_difference / _pow_relative_difference / the x2==x1 guard / _symmetric_matrix_function_jvp_helper (M_C10.v), '
@@ -33,12 +34,16 @@ TRUSTED = ['Coq 8.16.1 kernel + vm_compute (no native_compute)',
            'the three *_relative_difference_exact lemmas of proofs/L_C12.v (restated)']
 ASSUMPTIONS = ['theorems over exact reals; binary64 behaviour only through the correspondence',
                'envelope / implicit-function theorems assume Frechet differentiability of the potential / residual at the point (Coquelicot filterdiff) '
-               'and differentiability of the internal variable; at the yield switch itself nothing is claimed',
+               'and differentiability of the internal variable; at the yield switch itself nothing is claimed; the bracket handed to find_root '
+               'does not occur in the hypotheses (end-point roots are NOT excluded: C10_scalar_ift_at_bracket_end), only differentiability of the '
+               'residual at the root is needed (fails for the power-law rate term at eqps = eqpsOld, never the root of a yielding step)',
                'relative-difference theorems need positive arguments where sqrt/log/real powers are involved and l1 <> l2',
                'finite-difference comparisons reject stencils that straddle a constitutive switch (yield surface, tension/compression split)']
 RULE = ('L1: kernels at random positive arguments over 8 decades plus near-cancellation streams l2 = l1(1+d), d = 1e-1..1e-13, and exactly equal '
         'arguments; helper on random SPD tensors incl. exactly repeated eigenvalues. L2: every material family each run (J2 options rotate in the quick '
-        'tier, all 18 kinematics x hardening x rate combinations in thorough), random admissible constants, states from 1-3 random load steps, '
+        'tier, all 18 kinematics x hardening x rate combinations in thorough; plus flat hardening -- linear H = 0 and voce with Ysat = Y0, '
+        'i.e. perfect plasticity with the root of the internal solve on the upper bracket end -- for every kinematics option, actively yielding '
+        'generic points only, one combination per quick run, all 6 in thorough), random admissible constants, states from 1-3 random load steps, '
         'evaluation points on the elastic and on the yielding side, gradient (all 9 components) and tangent action in random and coordinate '
         'directions versus 6th-order central differences at steps h and 2h; non-trivial = internal state evolved or nonlinear kinematics; '
         'distinct = distinct (model, options, state, point, direction)')
@@ -153,6 +158,21 @@ def kernels_layer(ctx, model_ok):
         if not abs(got - want) <= 1e-10 * abs(want):
             ctx.fail('conclusion', 'jax.grad through find_root gives %r, the implicit-function value -F_p/F_x is %r (a=%r b=%r p=%r)' % (got, want, a, b, p0),
                      case=dict(layer='ift', a=a, b=b, p=p0), concrete=True)
+    # the same rule with the root ON AN END of the (parameter-independent) bracket: C10_scalar_ift_at_bracket_end -- the derivative theorem
+    # has no interiority hypothesis, the sensitivity is still -F_p/F_x (rtsafe_ returns such an end without iterating)
+    for i in range(ctx.n(4, 24)):
+        ctx.count('evaluations')
+        ctx.count('ift_root_on_bracket_end')
+        a, p0, w = r.uniform(0.3, 3), r.uniform(0.2, 2), r.uniform(0.5, 3)
+        br = [p0, p0 + w] if i % 2 == 0 else [p0 - w, p0]           # root x(p) = p sits on the lower / upper end at p = p0
+        # F(x, p) = a (x - p) (1 + (x - p)^2): exactly zero at x = p; dx/dp = 1
+        root = lambda p: ScalarRootFind.find_root(lambda x: a * (x - p) * (1.0 + (x - p) ** 2), 0.5 * (br[0] + br[1]), np.array(br), settings)[0]
+        x0 = float(root(p0))
+        got = float(jax.grad(root)(p0))
+        if not (x0 == p0 and abs(got - 1.0) <= 1e-12):
+            ctx.fail('conclusion', 'find_root with the root on the %s end of the bracket %r returns %r with derivative %r w.r.t. the parameter; the '
+                     'implicit-function value -F_p/F_x is 1 (F = a (x - p)(1 + (x - p)^2), a=%r, p=%r)' % (['lower', 'upper'][i % 2], br, x0, got, a, p0),
+                     case=dict(layer='ift_end', a=a, p=p0, bracket=br), concrete=True)
     if not model_ok:
         return
     # ---- L1: regenerated / hand kernels at binary64 vs the implementation
@@ -289,6 +309,23 @@ def material_configs(ctx):
                                                               'regularization length': round(r.uniform(0.05, 0.5), 3), 'kinematics': k}))
     for c in cfgs:
         c['seed'] = r.randrange(1 << 30)
+    # flat hardening (rate-independent PERFECT plasticity): the flow stress is constant, so the root of the consistency residual IS the upper
+    # end of the bracket handed to find_root, ub = eqpsOld + (trialMises - Y)/(3 mu), and rtsafe_ returns that end without iterating.  This is
+    # the one place where the derivative of the root must come from the implicit-function rule AT a bracket end (the IFT theorem has no
+    # interiority hypothesis: see C10_scalar_ift_at_bracket_end); the tangent then carries the whole plastic correction.  Only actively
+    # yielding points are judged.  Every kinematics option x {linear H = 0, voce saturated from the start}; the quick tier rotates.
+    flats = [(k, f) for k in kins for f in ('linear H=0', 'voce Ysat=Y0')]
+    if ctx.tier == 'quick':
+        flats = [flats[(2 * ctx.seed + ctx.seed // 3) % 6]]
+    rf = ctx.rng('configs_flat')             # own stream: the constants of the configurations above do not move
+    for (k, f) in flats:
+        Y0 = round(rf.uniform(0.05, 0.3), 4)
+        p = {'elastic modulus': round(rf.uniform(5.0, 20.0), 3), 'poisson ratio': round(rf.uniform(0.1, 0.4), 3), 'yield strength': Y0, 'kinematics': k}
+        if f == 'linear H=0':
+            p.update({'hardening model': 'linear', 'hardening modulus': 0.0})
+        else:
+            p.update({'hardening model': 'voce', 'saturation strength': Y0, 'reference plastic strain': round(rf.uniform(0.02, 0.3), 4)})
+        cfgs.append(dict(family='J2Plastic', props=p, flat=f, seed=rf.randrange(1 << 30)))
     return cfgs
 
 
@@ -418,12 +455,13 @@ def run_material(ctx, cfg, npoints):
             steps.append((Hs.tolist(), dts))
             q = model.upd(np.array(Hs), q, dts)
         dt = round(10.0 ** r.uniform(-1.5, 0.3), 4)
-        want = 'elastic' if (len(results) % 2 == 0) else 'plastic'
+        flat = bool(cfg.get('flat'))                                     # flat hardening stream: actively yielding, generic points only
+        want = 'elastic' if (len(results) % 2 == 0 and not flat) else 'plastic'
         if cfg['family'] == 'J2Plastic' and want == 'elastic':
             H = Hs * r.uniform(0.8, 0.99) + rand_H(r, 0.002)           # partial unloading from the last converged state
         else:
             H = Hs + rand_H(r, r.uniform(0.02, 0.15))
-        pattern = ['generic', 'generic', 'double', 'triple'][tries % 4] if cfg['family'] != 'J2Plastic' or want == 'plastic' else 'generic'
+        pattern = ['generic', 'generic', 'double', 'triple'][tries % 4] if cfg['family'] != 'J2Plastic' or (want == 'plastic' and not flat) else 'generic'
         if pattern != 'generic':
             # repeated principal stretches (uniaxial / equibiaxial / volumetric states in a rotated frame): where the repeated-eigenvalue
             # handling of the spectral tensor functions is exercised
@@ -449,7 +487,9 @@ def run_material(ctx, cfg, npoints):
         bad, info = res
         if cfg['family'] == 'J2Plastic':
             side = 'plastic' if info.get('side') else 'elastic'
-            if sides.get(side, 0) >= (npoints + 1) // 2 and tries < 8 * npoints:
+            if flat and side == 'elastic':
+                continue
+            if not flat and sides.get(side, 0) >= (npoints + 1) // 2 and tries < 8 * npoints:
                 continue                                             # keep both sides of the yield switch represented
             sides[side] = sides.get(side, 0) + 1
         info['eqps_or_state_norm'] = float(onp.abs(onp.asarray(q) - onp.asarray(model.state0)).max()) if model.evolves else 0.0
@@ -476,13 +516,16 @@ def materials_layer(ctx, cfgs=None):
     fams = {}
     for cfg in cfgs:
         try:
-            results, sides = run_material(ctx, cfg, ctx.n(4, 8))
+            results, sides = run_material(ctx, cfg, ctx.n(3, 4) if cfg.get('flat') else ctx.n(4, 8))
         except Exception as ex:
             ctx.count('evaluations')
             ctx.fail('conclusion', '%s %s: differentiating the energy density raised %s: %s' % (cfg['family'], json.dumps(cfg['props']), type(ex).__name__, str(ex)[:200]),
                      case=dict(layer='material_error', cfg=cfg), concrete=True)
             continue
         opts = {k: v for k, v in cfg['props'].items() if isinstance(v, (str, bool))}
+        if cfg.get('flat'):
+            opts['flat hardening'] = cfg['flat']
+            ctx.count('flat_hardening_yielding_points', len(results))
         worst = max([i.get('grad_err', 0) / i.get('grad_tol', 1) for _, _, i in results] + [0])
         worst2 = max([i.get('tangent_err_0', 0) / i.get('tangent_tol_0', 1) for _, _, i in results] + [0])
         ctx.log('L2 %-28s %-70s points %d %s worst err/tol: grad %.2g tangent %.2g' % (cfg['family'], json.dumps(opts)[:70], len(results), sides or '', worst, worst2))
@@ -641,5 +684,16 @@ def replay(ctx, path):
         want = dd_exact({'logref': 'log', 'taylor': 'log', 'plain': 'log'}.get(case['kind'], case['kind']), case['l1'], case['l2'], 0.25)
         print('kernel now returns', got, 'divided difference', want)
         return 1 if abs(got - want) > 1e-8 * abs(want) else 0
+    if lay == 'ift_end':
+        import jax
+        import jax.numpy as np
+        import optimism  # noqa: F401
+        from optimism import ScalarRootFind
+        st = ScalarRootFind.get_settings(x_tol=1e-14, r_tol=0.0)
+        a, p0, br = case['a'], case['p'], case['bracket']
+        root = lambda p: ScalarRootFind.find_root(lambda x: a * (x - p) * (1.0 + (x - p) ** 2), 0.5 * (br[0] + br[1]), np.array(br), st)[0]
+        got = float(jax.grad(root)(p0))
+        print('d root / d p through find_root with the root on a bracket end now:', got, '(implicit-function value 1)')
+        return 1 if abs(got - 1.0) > 1e-12 else 0
     print('case of layer %s is replayed by re-running the check' % lay)
     return 1
